@@ -709,6 +709,8 @@ class PipelineAnalysis:
                            'encrypt' if pad else 'decrypt', show(now), tr),
                        path=[str(x) for x in trace[-8:]])
             rec.count('R01.b-%s' % ('enc' if pad else 'dec'), len(il.ready_facts), 1)
+        rec.ob('S-ROLE', 'S-ROLE@%s::file-io-only-in-the-io-role' % A.Gq, not any(o.rule == 'S-ROLE' and o.ok is False for o in rec.obls), A.G['file'],
+               'the worker role performs no stream operation; the I/O role performed %d on the analysed paths' % sum(getattr(self.io_runs[p][0], 'fileops', 0) for p in (True, False)))
         rec.count('S-OWN worker accesses', wl.acc, 2)
         rec.count('S-OWN io accesses', sum(self.io_runs[p][0].acc for p in (True, False)), 3)
         rec.count('R03.a cipher-step sites', counters.get('steps', 0), 1)
